@@ -7,11 +7,13 @@ use std::sync::Arc;
 use std::time::Instant;
 
 pub mod c02;
+pub mod c03;
 pub mod c04;
 pub mod c05;
 pub mod c13;
 pub mod c14;
 pub mod c15;
+pub mod c16;
 pub mod c18;
 pub mod c20;
 
@@ -75,18 +77,20 @@ pub struct Check {
 pub fn get(id: &str, tier: Tier) -> Option<Check> {
     Some(match id {
         "C02" => c02::check(tier),
+        "C03" => c03::check(tier),
         "C04" => c04::check(tier),
         "C05" => c05::check(tier),
         "C13" => c13::check(tier),
         "C14" => c14::check(tier),
         "C15" => c15::check(tier),
+        "C16" => c16::check(tier),
         "C18" => c18::check(tier),
         "C20" => c20::check(tier),
         _ => return None,
     })
 }
 
-pub const ALL: &[&str] = &["C02", "C04", "C05", "C13", "C14", "C15", "C18", "C20"];
+pub const ALL: &[&str] = &["C02", "C03", "C04", "C05", "C13", "C14", "C15", "C16", "C18", "C20"];
 
 /// Stream-local seed for scenario `idx`.
 pub fn sseed(ctx: &Ctx, stream: &str, idx: u64) -> u64 {
